@@ -200,6 +200,12 @@ def check(s):
                             fi = P.resolve_attr(ci, e[2])
                             if fi and fi[0] == "field" and fi[2].annotation is not None and "Array" in __import__("ast").unparse(fi[2].annotation):
                                 bad.append(show(e) + " (array)")
+            if cls == "Dict":
+                # Dict.__eq__ compares plain dicts (key order is not part of equality: C14.4), so the hash must not depend on key order
+                # either: it has to go through an order-free container (frozenset) or a sorted sequence of the items
+                order_free = any(isinstance(c, tuple) and c and c[0] == "call" and c[1] in (("global", "frozenset"), ("global", "sorted")) for h_ in hs for c in walk(h_))
+                s.ob("C14.5", conh, order_free, "Dict.__hash__ is key-order-insensitive (frozenset / sorted items), like Dict.__eq__", loch, key="hash-order-sensitive",
+                     detail="; ".join(show(h_, maxlen=120) for h_ in hs), necessary_for="equal spaces (also after a Gymnasium round trip, which sorts keys) have equal hashes")
             s.ob("C14.5", conh, not bad and bool(hs), "hash() is applied to hashable values only (no dict views, lists, dicts, sets, arrays)", loch, key="unhashable-argument",
                  detail="; ".join(bad) or f"{len(hs)} hash call(s)", necessary_for="hash(space) does not raise")
     # ---------------------------------------------------------------- C14.6 sample laws
@@ -430,6 +436,11 @@ def check_canonical(s):
     s.ob("C14.7", "Box.canonical", not problems,
          "canonical() reads a bound only where that bound is known finite (the same isfinite tests sample() branches on)", loc, key="unguarded-infinite-bound",
          detail="; ".join(problems) or show(p.ret, maxlen=300), necessary_for="canonical() returns a member also for boxes with infinite bounds (no inf − inf = NaN)")
+    # the bounded branch is a convex combination of the bounds; forming `high - low` first overflows to inf for the +-float-max bounds
+    # Gymnasium uses for "unbounded" dimensions (CartPole-v1's velocities), so the canonical value would not be a member
+    diffs = [x for x in walk(p.ret) if isinstance(x, tuple) and x and x[0] == "bin" and x[1] == "Sub" and {x[2], x[3]} == {low, high}]
+    s.ob("C14.7", "Box.canonical", not diffs, "canonical() never forms high - low (it overflows for finite bounds of opposite sign near the float range)", loc, key="width-overflow",
+         detail="; ".join(show(d, maxlen=80) for d in diffs[:2]), necessary_for="canonical() returns a member for every finite box, including the +-float-max boxes that come from Gymnasium")
     bs = s.builder(inline=set())
     ps = one(s.paths(bs, "Box", "sample"), "Box.sample")
     isf = [c for c in walk(ps.ret) if isinstance(c, tuple) and c and c[0] == "call" and c[1] == ("global", "jax.numpy.isfinite")]
